@@ -210,6 +210,9 @@ def _get_ifm_to_fuse(sched_op, target_mem_area=None, target_mem_type_set=None):
             or tensor_should_be_ignored(ofm, target_mem_area, target_mem_type_set)
             # input tensor only allowed to have one consumer
             or len(ifm.consumer_list) > 1
+            # the copy is what keeps a write protected input (used outside this subgraph) from being overwritten
+            # by an operator that overwrites the copy in place
+            or ifm.ifm_write_protected
         ):
             # Currently DMA only used when bypassing memory only ops so ok to reuse ifm
             # if ifm has only one consumer
